@@ -705,8 +705,14 @@ where
     }
 
     fn try_reallocate(&mut self, new_capacity: usize) -> Result<(), TryReserveError> {
+        let new_table = RawTable::try_with_capacity(new_capacity)?;
+        self.move_to_table(new_table);
+        Ok(())
+    }
+
+    fn move_to_table(&mut self, new_table: RawTable<Entry<K, V>>) {
         let hasher = make_hasher(&self.hash_builder);
-        let mut old_table = RawTable::try_with_capacity(new_capacity)?;
+        let mut old_table = new_table;
         mem::swap(&mut self.table, &mut old_table);
 
         // Hashing a key may panic. While entries are being moved, the list
@@ -730,7 +736,6 @@ where
         }
 
         mem::forget(guard);
-        Ok(())
     }
 
     fn reallocate(&mut self, new_capacity: usize) {
@@ -995,7 +1000,17 @@ where
         let new_capacity = self.len().max(min_capacity);
 
         if self.capacity() > new_capacity {
-            self.reallocate(new_capacity);
+            let new_table = RawTable::try_with_capacity(new_capacity).unwrap();
+
+            // The reported capacity excludes buckets occupied by tombstones,
+            // so a fresh table with the same number of buckets may have a
+            // higher capacity. Only move if the table actually gets smaller
+            // and the capacity does not increase.
+
+            if new_table.buckets() < self.table.buckets() &&
+                    new_table.capacity() <= self.capacity() {
+                self.move_to_table(new_table);
+            }
         }
     }
 
